@@ -177,21 +177,42 @@ def correspond(ctx):
                         metas.append(('berr', dict(meta, step='converged')))
                 except Exception:
                     pass
-    # hosts whose final result is a single documented solve with the returned weights
+    # hosts whose final result is a single documented solve with the returned weights (every way of supplying the weights)
     for host in FINAL_ONLY:
         for n in (25, 60, 200):
-            x, y = data_1d(rng, n)
-            lam = float(lams[int(rng.integers(0, len(lams)))])
-            try:
-                with np.errstate(all='ignore'):
-                    b, p = getattr(Baseline(x), host)(y, lam=lam, **({'half_window': 3} if host == 'mpls' else {}))
-            except Exception:
-                continue
-            ctx.case((host, n, lam), nontrivial=True)
-            ctx.count('host:' + host)
-            w = np.asarray(p['weights'], float)
-            lines.append(berr_line('std', n, 2, lam, 0.0, w, [], y, b))
-            metas.append(('berr', {'host': host, 'kind': 'std', 'n': n, 'd': 2, 'lam': lam, 'x': x.tolist(), 'y': y.tolist(), 'step': 'final', 'kw': {}}))
+            for mode in (('default', 'user', 'user-mask', 'binary-mask') if host == 'fabc' else ('default', 'user')):
+                x, y = data_1d(rng, n)
+                lam = float(lams[int(rng.integers(0, len(lams)))])
+                d = int(rng.integers(1, 4))
+                kw = {'lam': lam, 'diff_order': d}
+                if host == 'mpls':
+                    kw['half_window'] = 3
+                if mode == 'user':
+                    kw['weights'] = np.round(rng.uniform(0.2, 1, n) * 64) / 64
+                elif mode == 'user-mask':
+                    w = np.round(rng.uniform(0.2, 1, n) * 64) / 64
+                    w[rng.random(n) < 0.3] = 0
+                    kw.update(weights=w, weights_as_mask=True)
+                elif mode == 'binary-mask':
+                    kw.update(weights=(rng.random(n) < 0.6).astype(float), weights_as_mask=True)
+                solver = int(rng.integers(1, 5))
+                try:
+                    with np.errstate(all='ignore'):
+                        fit = Baseline(x)
+                        fit.banded_solver = solver
+                        b, p = getattr(fit, host)(y, **kw)
+                except Exception as ex:
+                    ctx.count('final-raised:' + type(ex).__name__)
+                    continue
+                ctx.case((host, n, lam, d, mode, solver), nontrivial=True)
+                ctx.count('host:' + host)
+                ctx.count('weights-mode:' + mode)
+                w = np.asarray(p['weights'], float)
+                if not (np.all(np.isfinite(b)) and np.all(np.isfinite(w))):
+                    continue
+                lines.append(berr_line('std', n, d, lam, 0.0, w, [], y, b))
+                metas.append(('berr', {'host': host, 'kind': 'std', 'n': n, 'd': d, 'lam': lam, 'x': x.tolist(), 'y': y.tolist(), 'step': 'final:' + mode,
+                                       'solver': solver, 'kw': {k: (v.tolist() if isinstance(v, np.ndarray) else v) for k, v in kw.items()}}))
     # utils.whittaker_smooth
     for d in (0, 1, 2, 3, 4):
         for n in (d + 2, 2 * d + 2, 40):
